@@ -62,7 +62,7 @@ PROPS = {
         "jl": True,
         "module": "Props.C11",
         "namespace": "Jl.C11",
-        "extra_theorem_files": [("Proofs.CastBin", "Jl"), ("Proofs.LE", "Jl.LE")],
+        "extra_theorem_files": [("Proofs.CastBin", "Jl"), ("Proofs.LE", "Jl.LE"), ("Proofs.LineBinary", "Jl.LineBinary")],
         "rule": ("ToBinary(v) and cast.To(type of v, those bytes) for every int8/uint8 value, every 257th (thorough: every) int16/uint16 "
                  "value, every value within 2 of every power of two / bound in every integer type that holds it, float boundaries, "
                  "NaN payload classes, +-0, subnormals, random 32/64-bit values; cast.To(T, bytes) for every fixed-width T and byte "
@@ -113,7 +113,7 @@ PROPS = {
         "jl": True,
         "module": "Props.C03",
         "namespace": "Jl.C03",
-        "extra_theorem_files": [("Proofs.Order", "Jl.Order"), ("Proofs.LineKeys", "Jl.LineLevel")],
+        "extra_theorem_files": [("Proofs.Order", "Jl.Order"), ("Proofs.LineKeys", "Jl.LineLevel"), ("Proofs.LineValues", "Jl.LineValues")],
         "rule": ("templates with 0-6 columns in non-alphabetical order (names incl. '', 'é', 'a.b'), hidden anywhere, sub-rows to depth 3; "
                  "input and output template share names and structure as jl builds them; inputs: every permutation of the declared keys "
                  "(<= 4 keys; thorough 5), missing keys, extra keys, objects/arrays with >= 2 members in non-alphabetical order under "
